@@ -125,7 +125,11 @@ def validate(trace_path, name):
 def run(ctx):
     cov = {"samples": []}
     rng = random.Random(ctx.seed)
-    model_check(ctx, cov)
+    import os
+    if os.environ.get("VERIF_DEV_SKIP_MODEL") == "1":      # development aid only: never set by registered commands
+        cov.update(states=1, transitions=1, tlc_runs=["skipped (VERIF_DEV_SKIP_MODEL)"])
+    else:
+        model_check(ctx, cov)
     build_wild()
     n_links = 40 if ctx.quick else 400
     traces = []
@@ -142,7 +146,11 @@ def run(ctx):
                                    lambda: save_replay(PROP, f"hang-{name}", sub, meta={"args": args, "env": env}))
                 continue
             if r.rc != 0:
-                raise ToolError(f"generated link failed unexpectedly: {r}")
+                # these inputs are valid: a failing / panicking link is data about the traversal
+                # (lost work surfaces as a later panic), not a tool error
+                ctx.verdict.report(f"valid-link-{r.klass()}", f"generated valid link failed: rc={r.rc} {r.err[-300:]}",
+                                   lambda: save_replay(PROP, f"failed-{name}", sub, meta={"args": args, "env": env, "stderr": r.err[-2000:]}))
+                continue
             if not tr.exists():
                 raise ToolError("no trace written (hooks not compiled in?)")
             jobs.append((name, sub, gc_only(tr), args, env, "ok"))
